@@ -816,6 +816,9 @@ func main() {
 			common.Machinery("bad case: %v", err)
 		}
 		ok, _, sh, d := checkValue(c.Value, c.Via)
+		if ok {
+			return true, c.Value.Short() + " round-trips through " + c.Via
+		}
 		return ok, sh + ": " + d
 	})
 	r.Replayer("graph", func(raw json.RawMessage) (bool, string) {
@@ -824,6 +827,9 @@ func main() {
 			common.Machinery("bad case: %v", err)
 		}
 		ok, _, sh, d := checkGraph(c.Triples)
+		if ok {
+			return true, fmt.Sprintf("graph of %d triples round-trips through WriteGraph/ReadIntoGraph", len(c.Triples))
+		}
 		return ok, sh + ": " + d
 	})
 	r.MaybeReplay()
